@@ -10,3 +10,4 @@ import PvModel.Props.C17
 #print axioms Pv.C17_fail_means_unsat
 #print axioms Pv.C17_unify_exact
 #print axioms Pv.C17_program_complete
+#print axioms Pv.C17_label_partition
